@@ -13,11 +13,16 @@ def block_esis(rng, k, extra, repair_frac, esi_hi=(1 << 24) - 1):
     src = rng.shuffle(list(range(k)))[:nsrc]
     rep = set()
     while len(rep) < n - nsrc:
-        r = rng.below(6)
+        r = rng.below(7)
         if r == 0:
             e = k + rng.below(16)
         elif r == 1:
             e = esi_hi - rng.below(1000)
+        elif r == 2:
+            # agrees with a small ESI (a source symbol or an early repair symbol) in its low 8 / 16 bits
+            e = rng.choice([256, 65536]) * rng.range(1, 255) + rng.below(k + 20)
+            if e < k or e > esi_hi:
+                continue
         else:
             e = rng.range(k, esi_hi)
         rep.add(e)
@@ -100,3 +105,32 @@ def codec_case(rng, cfg, thr, steps, kinds, data):
     for (sbn, esi), kd in zip(steps, kinds):
         a += [kd, sbn, esi]
     return C.Case("codec_hist", a + data)
+
+
+_DEG = {}
+
+
+def degrees(k, upto=700):
+    """LT degree d of the tuple of every ESI < upto of a block with K = K' = k (k a Table-2 size), from the model"""
+    if k in _DEG:
+        return _DEG[k]
+    import re
+    src = open(C.REPO + "/src/systematic_constants.rs").read()
+    body = src[src.index("SYSTEMATIC_INDICES_AND_PARAMETERS") :]
+    body = body[body.index("= [") : body.index("];")]
+    row = next(tuple(int(x) for x in m.groups()) for m in re.finditer(r"\((\d+),\s*(\d+),\s*(\d+),\s*(\d+),\s*(\d+)\)", body) if int(m.group(1)) == k)
+    p1src = src[src.index("P1_TABLE") :]
+    p1 = dict((int(a), int(b)) for a, b in re.findall(r"\((\d+),\s*(\d+)\)", p1src[p1src.index("= [") : p1src.index("];")]))[k]
+    kp, j, s_, h, w = row
+    res = C.run_model([C.Case("tuple", [x, w, j, p1]) for x in range(upto)])
+    _DEG[k] = [int(r.split()[1]) for r in res]
+    return _DEG[k]
+
+
+def heavy_esis(rng, k, dmin, extra):
+    """a received set of k + extra distinct ESIs whose LT degree is at least dmin (k must be a Table-2 size)"""
+    d = degrees(k)
+    pool = [x for x, dx in enumerate(d) if dx >= dmin]
+    if len(pool) < k + extra:
+        return None
+    return rng.shuffle(pool)[: k + extra]
